@@ -17,14 +17,14 @@ Notation run := (run A prim act cond dirflag inp g).
 Notation pstate := (pstate A).
 Notation nn := (nn pos_prims cert).
 Notation memo_nn := (memo_nn A cert).
-Notation memo_bd := (memo_bd A inp).
+Notation memo_bd := (memo_bd A (length inp)).
 
 Hypothesis CO : cert_ok g pos_prims cert = true.
 Hypothesis prim_pos : forall i a p n, In i pos_prims -> prim i a p = Some n -> 1 <= n.
 Hypothesis prim_bound : forall i a p n, prim i a p = Some n -> p + n <= length inp.
 
 Definition advf := run_adv A prim act cond dirflag inp g pos_prims cert prim_pos CO.
-Definition bdf := run_bd A prim act cond dirflag inp g prim_bound.
+Definition bdf := run_bd A prim act cond dirflag inp g (length inp) (fun i a p n _ H => prim_bound i a p n H).
 
 (* many0 over a non-nullable parser never fails *)
 Lemma many0_no_err e : nn e = true -> forall fuel p rf st, memo_nn st -> fst (run fuel (FMany0 e) p rf st) <> Err.
